@@ -1227,3 +1227,27 @@ Proof.
   split; [apply noLFb_sound, B|]. split; [exact C|]. split; [exact D|]. split; [apply noLFb_sound, E|]. split; [exact F|].
   rewrite forallb_forall in G. apply Forall_forall. intros l Hl. apply line_okb_sound, G, Hl.
 Qed.
+
+(* ================= 11. every header, in particular every Set-Cookie, is one complete line of the output ================= *)
+Lemma serialize_header_line (r : response) (h : header) : In h (s_headers r) ->
+  exists pre post, serialize_response r = pre ++ CRLF ++ render_header h ++ CRLF ++ post.
+Proof.
+  intros Hin. apply (Permutation_in h (Permutation_sym (hsort_perm (s_headers r)))) in Hin.
+  apply in_split in Hin. destruct Hin as (l1 & l2 & E).
+  unfold serialize_response. rewrite E, map_app, concat_app. cbn [map concat].
+  exists (s_version r ++ [SP] ++ dec_render (status_code (s_status r)) ++ [SP] ++ status_phrase (s_status r) ++
+          concat (map (fun h0 => CRLF ++ render_header h0) l1)).
+  destruct l2 as [|x l2].
+  - exists (CRLF ++ match s_body r with [] => [] | b => b ++ CRLF end). cbn [map concat]. app_norm. reflexivity.
+  - exists (render_header x ++ concat (map (fun h0 => CRLF ++ render_header h0) l2) ++ CRLF ++ CRLF ++
+            match s_body r with [] => [] | b => b ++ CRLF end). cbn [map concat]. app_norm. reflexivity.
+Qed.
+
+Lemma serialize_cookie_line (r : response) (c : set_cookie) : In (set_cookie_header c) (s_headers r) ->
+  exists pre post,
+    serialize_response r = pre ++ CRLF ++ Txt.s_set_cookie ++ [COLON; SP] ++ cookie_text c ++ CRLF ++ post.
+Proof.
+  intros Hin. destruct (serialize_header_line r _ Hin) as (pre & post & E). exists pre, post. rewrite E.
+  destruct (set_cookie_spec_lemma c) as [-> Hn]. unfold render_header. cbn [fst snd]. rewrite Hn.
+  app_norm. reflexivity.
+Qed.
